@@ -9,7 +9,7 @@
 //!  5. seeded random identifiers (valid and mutated) in random positions and through the lexer.
 use quil_rs::expression::Expression;
 use quil_rs::instruction::{
-    ArithmeticOperand, AttributeValue, GateSpecification, Instruction, MemoryReference, PragmaArgument, Qubit, Target,
+    ArithmeticOperand, AttributeValue, ExternSignatureMap, GateSpecification, Instruction, MemoryReference, PragmaArgument, Qubit, Target,
     UnresolvedCallArgument,
 };
 use quil_rs::program::type_check::type_check;
@@ -216,19 +216,57 @@ fn pos_case(ctx: &mut Ctx, pos: &Pos, ident: &str) {
         None => format!("{}{}{}", pos.pre, ident, pos.post),
     };
     let extract = pos.extract;
-    ctx.case(tagged("pos", vec![atom(pos.name), atom(pos.kind), st(ident)]), move || match Program::from_str(&text) {
-        Ok(p) => {
-            let is = p.to_instructions();
-            if is.len() != 1 {
-                return tagged("other", vec![]);
-            }
-            match extract(&is[0]) {
-                Some(v) => names_out(v),
-                None => tagged("other", vec![]),
-            }
+    ctx.case(tagged("pos", vec![atom(pos.name), atom(pos.kind), st(ident)]), move || {
+        let prog = Program::from_str(&text);
+        if let Err(e) = &prog {
+            format_error(e);
         }
-        Err(_) => tagged("err", vec![]),
+        let instr = Instruction::from_str(&text);
+        if let Err(e) = &instr {
+            format_error(e);
+        }
+        let out = match &prog {
+            Ok(p) => {
+                let is = p.to_instructions();
+                if is.len() != 1 {
+                    tagged("other", vec![])
+                } else {
+                    match extract(&is[0]) {
+                        Some(v) => names_out(v),
+                        None => tagged("other", vec![]),
+                    }
+                }
+            }
+            Err(_) => tagged("err", vec![]),
+        };
+        // sibling entry point: Instruction::from_str must give the same single instruction
+        let consistent = match (&prog, &instr) {
+            (Ok(p), Ok(i)) => {
+                let is = p.to_instructions();
+                is.len() == 1 && is[0] == *i && format!("{:?}", is[0]) == format!("{i:?}")
+            }
+            (Ok(p), Err(_)) => p.to_instructions().len() != 1,
+            (Err(_), Ok(_)) => false,
+            (Err(_), Err(_)) => true,
+        };
+        if consistent {
+            out
+        } else {
+            tagged("mismatch", vec![out, st(format!("{instr:?}"))])
+        }
     });
+}
+
+/// Format an error every way a caller might: a panic in there is a crash.
+fn format_error<E: std::error::Error>(e: &E) {
+    let _ = e.to_string();
+    let _ = format!("{e:#}");
+    let _ = format!("{e:?}");
+    let mut src = e.source();
+    while let Some(s) = src {
+        let _ = s.to_string();
+        src = s.source();
+    }
 }
 
 /// waveform names of the form `a/b`
@@ -311,10 +349,121 @@ fn defuse_names(kind: &str, is: &[Instruction]) -> Vec<String> {
 
 fn defuse_case(ctx: &mut Ctx, kind: &'static str, template: &'static str, ident: &str) {
     let text = template.replace("{n}", ident);
+    let text2 = text.clone();
     ctx.case(tagged("defuse", vec![atom(kind), st(ident)]), move || match Program::from_str(&text) {
         Ok(p) => names_out(defuse_names(kind, &p.to_instructions())),
-        Err(_) => tagged("err", vec![]),
+        Err(e) => {
+            format_error(&e);
+            tagged("err", vec![])
+        }
     });
+    // the same names after print -> re-parse (a name-only view of the round trip)
+    ctx.case(tagged("defuse", vec![atom(format!("reparse-{kind}")), st(ident)]), move || {
+        let p = match Program::from_str(&text2) {
+            Ok(p) => p,
+            Err(_) => return tagged("err", vec![]),
+        };
+        let printed = match p.to_quil() {
+            Ok(t) => t,
+            Err(_) => return tagged("other", vec![]),
+        };
+        match Program::from_str(&printed) {
+            Ok(q) => names_out(defuse_names(kind, &q.to_instructions())),
+            Err(_) => tagged("err", vec![]),
+        }
+    });
+}
+
+/// a spelling that differs from `s` only in letter case (or by one appended character when it has no letter)
+fn case_flip(s: &str) -> String {
+    let mut cs: Vec<char> = s.chars().collect();
+    match cs.iter_mut().find(|c| c.is_ascii_alphabetic()) {
+        Some(c) => {
+            *c = if c.is_ascii_lowercase() { c.to_ascii_uppercase() } else { c.to_ascii_lowercase() };
+            cs.into_iter().collect()
+        }
+        None => format!("{s}x"),
+    }
+}
+
+/// Names through the later stages: a definition must match uses of exactly its own spelling and must NOT
+/// match a spelling that differs only in letter case.
+fn through_cases(ctx: &mut Ctx, ident: &str) {
+    let n = ident.to_string();
+    let n2 = case_flip(ident);
+    let body_names = |is: &[Instruction]| -> Vec<String> {
+        is.iter()
+            .map(|i| match i {
+                Instruction::Gate(g) => g.name.clone(),
+                Instruction::Fence(_) => "<fence>".to_string(),
+                _ => "<other>".to_string(),
+            })
+            .collect()
+    };
+    // calibration expansion
+    {
+        let text = format!("DEFCAL {n} 0:\n\tFENCE 0\n{n} 0\n{n2} 0\n");
+        ctx.case(tagged("through", vec![atom("calexpand"), st(&n), st(&n2)]), move || match Program::from_str(&text) {
+            Ok(p) => match p.expand_calibrations() {
+                Ok(q) => names_out(body_names(q.body_instructions().cloned().collect::<Vec<_>>().as_slice())),
+                Err(e) => {
+                    format_error(&e);
+                    tagged("other", vec![])
+                }
+            },
+            Err(_) => tagged("err", vec![]),
+        });
+    }
+    // sequence-gate expansion
+    {
+        let text = format!("DEFGATE {n} a AS SEQUENCE:\n\tZq9 a\n{n} 0\n{n2} 0\n");
+        ctx.case(tagged("through", vec![atom("seqexpand"), st(&n), st(&n2)]), move || match Program::from_str(&text) {
+            Ok(p) => match p.expand_defgate_sequences(|_| true) {
+                Ok(q) => names_out(body_names(q.body_instructions().cloned().collect::<Vec<_>>().as_slice())),
+                Err(e) => {
+                    format_error(&e);
+                    tagged("other", vec![])
+                }
+            },
+            Err(_) => tagged("err", vec![]),
+        });
+    }
+    // CALL resolution against PRAGMA EXTERN
+    {
+        let text = format!("PRAGMA EXTERN {n} \"(a : INTEGER)\"\nDECLARE x INTEGER\nCALL {n} x\nCALL {n2} x\n");
+        ctx.case(tagged("through", vec![atom("callresolve"), st(&n), st(&n2)]), move || match Program::from_str(&text) {
+            Ok(p) => match ExternSignatureMap::try_from(p.extern_pragma_map.clone()) {
+                Ok(map) => names_out(
+                    p.body_instructions()
+                        .filter_map(|i| match i {
+                            Instruction::Call(c) => Some(match c.resolve_arguments(&p.memory_regions, &map) {
+                                Ok(_) => "<resolved>".to_string(),
+                                Err(e) => {
+                                    format_error(&e);
+                                    "<unresolved>".to_string()
+                                }
+                            }),
+                            _ => None,
+                        })
+                        .collect(),
+                ),
+                Err(_) => tagged("other", vec![]),
+            },
+            Err(_) => tagged("err", vec![]),
+        });
+    }
+    // type checking: a region of another letter case is undefined
+    {
+        let text = format!("DECLARE {n} REAL[2]\nSET-PHASE 0 \"f\" {n}[1]\nSET-SCALE 0 \"f\" {n2}[1]\n");
+        ctx.case(tagged("through", vec![atom("typecheck"), st(&n), st(&n2)]), move || match Program::from_str(&text) {
+            Ok(p) => {
+                let whole = type_check(&p).is_ok();
+                let first = Program::from_str(&text[..text.find("SET-SCALE").unwrap()]).map(|q| type_check(&q).is_ok());
+                names_out(vec![format!("first-ok:{}", first.unwrap_or(false)), format!("whole-ok:{whole}")])
+            }
+            Err(_) => tagged("err", vec![]),
+        });
+    }
 }
 
 fn all_defuse(ctx: &mut Ctx, ident: &str) {
@@ -402,7 +551,7 @@ const DOMAIN: &[&str] = &[
     "second_order_hrm_coeff",
     // standard gates (instruction/gate.rs tables) and Pauli words
     "I", "X", "Y", "Z", "H", "S", "T", "CNOT", "CCNOT", "CZ", "SWAP", "CSWAP", "ISWAP", "PSWAP", "PHASE", "CPHASE00",
-    "CPHASE01", "CPHASE10", "CPHASE", "RX", "RY", "RZ", "XY", "XX", "ZZ",
+    "CPHASE01", "CPHASE10", "CPHASE", "RX", "RY", "RZ", "XY", "XX", "ZZ", "CAN", "PISWAP",
     // pragma names and frame attribute keys the library looks up by name
     "EXTERN", "LOAD-MEMORY", "DIRECTION", "INITIAL-FREQUENCY", "HARDWARE-OBJECT", "CENTER-FREQUENCY", "SAMPLE-RATE",
     "CHANNEL-DELAY", "ENABLE-RAW-CAPTURE", "tx", "rx",
@@ -557,8 +706,27 @@ fn run(ctx: &mut Ctx) {
         }
         consistency_case(ctx, w);
         all_defuse(ctx, w);
+        through_cases(ctx, w);
         wf_case(ctx, w, "ext");
         wf_bare_case(ctx, "q0_q1", w);
+    }
+    // 3b. extreme shapes: one-character names, maximal dash/underscore patterns, names of length 10^4
+    let long1: String = std::iter::once('L').chain(std::iter::repeat('x').take(9_999)).collect();
+    let long2: String = "aB-".repeat(3_333) + "z";
+    let long3: String = "_".repeat(5_000) + &"-_".repeat(2_500);
+    let shapes: Vec<String> = ["a", "Z", "_", "q", "__", "_-_", "_--_", "a-_-_-b", "a---b", "_a_-_b_", "a1-2b-3c", "A-a-A-a", "x-0", "_0", "a_", "a-b_", "_-a", "a-_", "a--_--a"]
+        .iter()
+        .map(|s| s.to_string())
+        .chain([long1, long2, long3])
+        .collect();
+    for w in &shapes {
+        lex_case(ctx, w);
+        for p in &positions {
+            pos_case(ctx, p, w);
+        }
+        consistency_case(ctx, w);
+        all_defuse(ctx, w);
+        through_cases(ctx, w);
     }
     // 3. identifiers in every position
     let groups: Vec<&[&str]> = if quick {
@@ -574,6 +742,7 @@ fn run(ctx: &mut Ctx) {
             // 4. consistency
             consistency_case(ctx, s);
             all_defuse(ctx, s);
+            through_cases(ctx, s);
         }
     }
     for a in ["q20_q27_xy", "Ab-1", "pi", "I"] {
@@ -623,6 +792,7 @@ fn run(ctx: &mut Ctx) {
         if rng.chance(1, 3) {
             let (kind, template) = DEFUSE[rng.below(DEFUSE.len() as u64) as usize];
             defuse_case(ctx, kind, template, &s);
+            through_cases(ctx, &s);
         }
     }
 }
